@@ -140,3 +140,76 @@ Proof.
   intros H. destruct (mutex scr s (accepted_spin_reachable _ _ _ H)) as (_ & M & _).
   apply Nat.leb_le in M. rewrite M. reflexivity.
 Qed.
+
+(* model_meets_spec for the spin lock's history clauses: on every accepted trace the SPEC's scan of the call/return events
+   (at most one holder between the return of lock()/successful try_lock() and the call of unlock(); try_lock true only
+   when nobody holds; unlock by the holder) reports nothing *)
+Definition in_cs (c : lpc) : bool := match c with CS0 | CS1 | CS2 => true | _ => false end.
+Definition scan_ok (s : sst) (h : option nat) : Prop :=
+  match h with
+  | Some t => in_cs (spc s t) = true
+  | None => forall t, in_cs (spc s t) = false
+  end.
+
+Lemma in_cs_holder c : in_cs c = true -> holder c = true.
+Proof. destruct c; cbn; auto; discriminate. Qed.
+
+Lemma spin_scan_step scr s h t o s' : sreach (spin_init scr) s -> scan_ok s h -> sstep s t = Some (s', o) ->
+  exists h', scan_ok s' h' /\ forall r, holder_scan h ((Thr t, o) :: r) = holder_scan h' r.
+Proof.
+  intros R Hs St. destruct (sreach_inv scr s R) as [U F I0 I1 M].
+  assert (OTHER : forall c, in_cs c = in_cs (spc s t) -> forall t', in_cs (upd (spc s) t c t') = in_cs (spc s t')).
+  { intros c Hc t'. unfold upd. destruct (Nat.eqb_spec t' t); [subst; auto|auto]. }
+  unfold sstep in St. destruct (spc s t) eqn:E.
+  all: try (destruct (sscr s t) as [|b rr]; [discriminate|]).
+  all: injection St as <- <-.
+  all: try destruct b.
+  all: destruct (flag s) eqn:Fl.
+  all: unfold after_fail; dif.
+  (* steps that are not ret lock / ret trylock true / call unlock: the scan state and membership in the critical section stay *)
+  all: try (exists h; split;
+            [ destruct h as [th|]; cbn [scan_ok spc set_spc xchg_true] in *;
+              [ rewrite OTHER; [exact Hs | reflexivity]
+              | intros t'; rewrite OTHER; [apply Hs | reflexivity] ]
+            | intros r; reflexivity ]; fail).
+  (* LAcq: ret lock;  TRet true: ret trylock 1 *)
+  all: try (assert (h = None) as -> by
+              (destruct h as [th|]; [|reflexivity]; cbn in Hs; pose proof (in_cs_holder _ Hs) as Hh;
+               assert (th = t) by (apply U; [auto|rewrite E; reflexivity]); subst; rewrite E in Hs; discriminate);
+            exists (Some t); split; [cbn; now rewrite upd_same|reflexivity]; fail).
+  (* CS2: call unlock *)
+  all: assert (h = Some t) as -> by
+         (destruct h as [th|];
+          [ cbn in Hs; apply in_cs_holder in Hs; f_equal; apply U; [auto|rewrite E; reflexivity]
+          | specialize (Hs t); rewrite E in Hs; discriminate ]).
+  all: exists None; split;
+       [ intros t'; cbn; unfold upd; destruct (Nat.eqb_spec t' t); [reflexivity|];
+         destruct (in_cs (spc s t')) eqn:X; [|reflexivity]; exfalso; apply n; apply U; [now apply in_cs_holder|rewrite E; reflexivity]
+       | intros r; cbn; now rewrite Nat.eqb_refl ].
+Qed.
+
+Theorem model_meets_spec_spin_history scr tr s : replay_spin scr tr = RDone s ->
+  holder_scan None (events_of tr) = [].
+Proof.
+  unfold replay_spin.
+  assert (G : forall tr s0 h idx, sreach (spin_init scr) s0 -> scan_ok s0 h ->
+              replay_from accept_spin s0 idx tr = RDone s -> holder_scan h (events_of tr) = []).
+  { clear tr. induction tr as [|[e|] tr IH]; intros s0 h idx R Hs Rp; cbn in Rp.
+    - reflexivity.
+    - destruct (accept_spin s0 e) as [s1| |o] eqn:Acc; try discriminate.
+      unfold accept_spin in Acc. destruct e as [[|t] o]; cbn [fst snd] in Acc; [discriminate|].
+      destruct (sstep s0 t) as [[s2 o2]|] eqn:St; [|discriminate].
+      destruct (op_eqb o o2) eqn:Eo; [|discriminate]. injection Acc as <-.
+      assert (o = o2) as ->.
+      { clear -Eo. destruct o, o2; cbn in Eo; try discriminate; repeat (apply andb_true_iff in Eo; destruct Eo as [Eo ?]);
+          repeat match goal with
+                 | H : Nat.eqb _ _ = true |- _ => apply Nat.eqb_eq in H; subst
+                 | H : Bool.eqb _ _ = true |- _ => apply Bool.eqb_prop in H; subst
+                 | H : obj_eqb ?a ?b = true |- _ => destruct a, b; cbn in H; try discriminate; try (apply Nat.eqb_eq in H; subst)
+                 end; reflexivity. }
+      destruct (spin_scan_step scr s0 h t o2 s2 R Hs St) as (h' & Hs' & Hr).
+      change (events_of (Some (Thr t, o2) :: tr)) with ((Thr t, o2) :: events_of tr). rewrite Hr.
+      eapply IH; [|exact Hs'|exact Rp]. eapply SR_step; [exact R|]. exists t, o2. exact St.
+    - discriminate. }
+  intros H. eapply (G tr (spin_init scr) None 0); [constructor| |exact H]. intros t. reflexivity.
+Qed.
